@@ -168,26 +168,47 @@ def audit(theorems):
 
 
 class Proc:
-    """A line-protocol child (harness or model driver)."""
+    """A line-protocol child (harness or model driver). Large batches are split over several
+    children running in parallel (the answers come back in request order)."""
 
-    def __init__(self, argv):
+    def __init__(self, argv, jobs=None):
         self.argv = argv
+        self.jobs = jobs or int(os.environ.get("VERIF_JOBS", "12"))
 
-    def ask(self, lines, timeout=1800):
-        if not lines:
-            return []
+    def _one(self, lines, timeout):
         data = "".join(l + "\n" for l in lines)
-        r = subprocess.run(self.argv, input=data, capture_output=True, text=True, timeout=timeout, env=ENV)
-        out = r.stdout.split("\n")
+        try:
+            r = subprocess.run(self.argv, input=data, capture_output=True, text=True, timeout=timeout, env=ENV)
+            out = r.stdout.split("\n")
+            rc = r.returncode
+        except subprocess.TimeoutExpired:
+            out, rc = [], "timeout"
         if out and out[-1] == "":
             out.pop()
         if len(out) != len(lines):
-            # the child died (abort, stack overflow): bisect to keep going
+            # the child died (abort, stack overflow) or ran out of time: bisect to keep going
             if len(lines) == 1:
-                return ["died:%s" % r.returncode]
+                return ["died:%s" % rc]
             mid = len(lines) // 2
-            return self.ask(lines[:mid], timeout) + self.ask(lines[mid:], timeout)
+            return self._one(lines[:mid], timeout) + self._one(lines[mid:], timeout)
         return out
+
+    def ask(self, lines, timeout=900):
+        if not lines:
+            return []
+        n = len(lines)
+        jobs = min(self.jobs, max(1, n // 64))
+        if jobs <= 1:
+            return self._one(lines, timeout)
+        import concurrent.futures
+        # interleave so that expensive neighbours are spread over the children
+        chunks = [lines[j::jobs] for j in range(jobs)]
+        with concurrent.futures.ThreadPoolExecutor(max_workers=jobs) as ex:
+            outs = list(ex.map(lambda c: self._one(c, timeout), chunks))
+        res = [None] * n
+        for j, out in enumerate(outs):
+            res[j::jobs] = out
+        return res
 
 
 def harness(as_nobody=False):
